@@ -191,6 +191,8 @@ def finish(res, level_note_extra=None):
             broken.append("%d of %d proof obligations not discharged" % (total - done, total))
         if forbidden:
             broken.append("forbidden vernacular: " + "; ".join(forbidden[:3]))
+        if getattr(res, "gen_failure", None):
+            broken.append("the translator could not regenerate coq/Gen from the current source, the theorems were checked against the previous model: " + res.gen_failure)
         if res.corr_breaks:
             broken.append("correspondence: implementation and model disagree on %d cases, e.g. %s" % (
                 len(res.corr_breaks), json.dumps(res.corr_breaks[0])[:600]))
